@@ -35,6 +35,10 @@ PRIM_DEFAULTS = {"font": 1, "size": 9, "paper": "letter", "pghf": 0, "pagefirst"
 
 RELW = {"equal": lambda j: 1.0, "asc": lambda j: 1.0 + 0.5 * j, "mixed": lambda j: [0.2, 10.0, 1.3, 2.7, 0.9, 4.4][j % 6],
         "tenths": lambda j: [1.7, 0.3, 2.9, 5.1, 0.7, 3.3][j % 6]}
+# "...disp": the same widths, but col_rel_width is written for the DISPLAYED columns only (one entry per column that is left
+# after page_by / subline_by removed theirs), the form RTFBody's documentation shows
+RELW["ascdisp"] = RELW["asc"]
+RELW["mixeddisp"] = RELW["mixed"]
 
 
 def opts_from_cfg(c, over=None):
@@ -45,6 +49,9 @@ def opts_from_cfg(c, over=None):
     hf = c.get("pghf", 0)
     o["pghdr"] = bool(hf & 1)
     o["pgftr"] = bool(hf & 2)
+    # bits 4 / 8: the page header / footer has two lines with per-line paragraph settings (still ONE definition each)
+    o["pghdr2"] = bool(hf & 4)
+    o["pgftr2"] = bool(hf & 8)
     o["ndata"] = c.get("ndata", 2)
     o["gpos"] = c.get("gpos", "first")
     o["relwk"] = c.get("relwk", "equal")
@@ -73,6 +80,7 @@ DEFAULT_OPTS = {
     "prefixes": False,          # also run every proper prefix (C04 PrefixStable)
     "numh": None,               # "int" | "float": row heights produced by a NUMERIC column (narrow, wrapping digits) instead of a text cell
     "gby": 0,                   # > 0: the second data column is a group_by column whose label needs that many lines
+    "repage": False,            # the document was constructed on ANOTHER page object (other table width); the scenario's page is assigned afterwards
     "shadow": False,            # the same frame was encoded with the opposite text_convert setting just before
 }
 
@@ -300,7 +308,7 @@ def build(c, o, nrows=None):
     if gby:
         body_kw["group_by"] = [dcols[1]]
     if o["relw"] or o.get("relwk", "equal") != "equal" or dup or numh:
-        body_kw["col_rel_width"] = list(relw_all)
+        body_kw["col_rel_width"] = list(relw_kept) if str(o.get("relwk", "")).endswith("disp") and not o["relw"] and not dup and not numh else list(relw_all)
     if o["font"] != 1:
         body_kw["text_font"] = o["font"]
     if o["size"] != 9:
@@ -338,12 +346,25 @@ def build(c, o, nrows=None):
     if c["src"] != "none":
         kw["rtf_source"] = rtf.RTFSource(text="~SRC~", as_table=(c["src"] == "table"))
     if o["pghdr"]:
-        kw["rtf_page_header"] = rtf.RTFPageHeader(text="~PH~")
+        kw["rtf_page_header"] = (rtf.RTFPageHeader(text=["~PH~", "~PH2~"], text_justification=["l", "r"], text_indent_left=[0, 360],
+                                                   text_space_before=[15, 60])
+                                 if o.get("pghdr2") else rtf.RTFPageHeader(text="~PH~"))
     if o["pgftr"]:
-        kw["rtf_page_footer"] = rtf.RTFPageFooter(text="~PF~")
+        kw["rtf_page_footer"] = (rtf.RTFPageFooter(text=["~PF~", "~PF2~", "~PF3~"], text_justification=["r", "c", "l"], text_font_size=[9, 12, 8])
+                                 if o.get("pgftr2") else rtf.RTFPageFooter(text="~PF~"))
     if c.get("hdrtuple") and isinstance(kw.get("rtf_column_header"), list) and kw["rtf_column_header"]:
         kw["rtf_column_header"] = tuple(kw["rtf_column_header"])
-    doc = rtf.RTFDocument(**kw)
+    if o.get("repage"):
+        # constructed with a page of another table width, the scenario's page assigned before encoding: every row must
+        # follow the page the document has when it is encoded
+        kw0 = dict(kw)
+        kw0["rtf_page"] = rtf.RTFPage(nrow=c["nrow"], orientation="landscape" if o["orientation"] == "portrait" else "portrait",
+                                      page_title=c["ptitle"], page_footnote=c["pfoot"], page_source=c["psrc"],
+                                      border_first=o["pagefirst"], border_last=o["pagelast"])
+        doc = rtf.RTFDocument(**kw0)
+        doc.rtf_page = page
+    else:
+        doc = rtf.RTFDocument(**kw)
     def expanded(style):
         m = umatrix(style) if style else ""
         keep_idx = [j for j, x in enumerate(cols) if x in kept]
